@@ -184,7 +184,7 @@ def e2e_pel(draw, i):
         secs.append(M.default_src(ascii=M.pad_text(ascii_[:32], 32, b' '),
                                   words=[draw(S.uint(32)) for _ in range(8)]))
     for _ in range(draw(st.integers(0, 3))):
-        kind = draw(st.sampled_from(['text', 'json', 'mt', 'eh', 'raw']))
+        kind = draw(st.sampled_from(['text', 'json', 'mt', 'eh', 'raw', 'bad-json']))
         if kind == 'text':
             lines = draw(st.lists(nasty_line, min_size=1, max_size=4))
             lines = [('x' + l + 'x') for l in lines]
@@ -195,6 +195,13 @@ def e2e_pel(draw, i):
             if len(raw) > 60000:
                 raw = b'{}'
             secs.append({'k': 'UD', 'ver': 1, 'sub': 1, 'comp': 0x2000, 'data': raw + b'\x00' * draw(st.integers(0, 3))})
+        elif kind == 'bad-json':
+            # JSON-format user data that does not parse (trailing comma, cut off, empty, not UTF-8): it is shown
+            # as a hex dump, and whatever is printed must still be the decoded document
+            raw = draw(st.sampled_from([b'{"a": 1,}', b'{"a": [1, 2', b'', b'nope', b'{"a": 1} trailing', b'\xff\xfe{}',
+                                        b"{'single': 1}", b'[1, 2,, 3]']))
+            secs.append({'k': draw(st.sampled_from(['UD', 'UD', 'ED'])), 'ver': 1, 'sub': 1, 'comp': 0x2000,
+                         'data': raw + b'\x00', 'creator': ord('O'), 'r1': 0, 'r2': 0})
         elif kind == 'mt':
             secs.append({'k': 'MT', 'ver': 1, 'sub': 0, 'comp': 0x2000,
                          'mtm': M.pad_text(draw(nasty_ascii(8)), 8), 'sn': M.pad_text(draw(nasty_ascii(12)), 12)})
